@@ -812,12 +812,12 @@ class ValueDecimal(Value):
     def __eq__(self, other):
         if not other.isNumerical():
             return False
-        return self.value == other.asDecimal().value
+        return self.value == other.value
 
     def __lt__(self, other):
         if not other.isNumerical():
             return str(self) < str(other)
-        return self.value < other.asDecimal().value
+        return self.value < other.value
 
     def __repr__(self):
         result = repr(self.value)
@@ -945,15 +945,11 @@ class ValueInt(Value):
     def __eq__(self, other):
         if not other.isNumerical():
             return False
-        if isinstance(other, ValueDecimal):
-            return self.asDecimal() == other
         return self.value == other.value
 
     def __lt__(self, other):
         if not other.isNumerical():
             return str(self) < str(other)
-        if isinstance(other, ValueDecimal):
-            return self.asDecimal() < other
         return self.value < other.value
 
     def __repr__(self):
@@ -969,7 +965,14 @@ class ValueInt(Value):
         return self
 
     def asDecimal(self):
-        return ValueDecimal(self.value)
+        # a decimal holds a double; int and decimal are still compared
+        # exactly, see __eq__ and __lt__
+        try:
+            return ValueDecimal(float(self.value))
+        except OverflowError:
+            raise CklRuntimeError(
+                ValueString("ERROR"), "Int is too large for a decimal"
+            )
 
     def asBoolean(self):
         return ValueBoolean.fromval(self.value != 0)
